@@ -716,6 +716,10 @@ func (t *tr) ret(b *block, r *ast.ReturnStmt, pending string) {
 		}
 		res = res[:len(res)-1]
 	}
+	if t.f.spec.Prefix {
+		b.add("pure false") // returns (without an error) before the effects: "skipped"
+		return
+	}
 	var vals []string
 	for _, e := range res {
 		v := t.expr(b, e)
@@ -1079,6 +1083,50 @@ func (t *tr) stmts(list []ast.Stmt, tail []string) []string {
 		case *ast.ReturnStmt:
 			t.ret(b, x, "")
 			return b.lines
+		case *ast.SwitchStmt:
+			// `switch tag { case a, b: … default: … }` (no fallthrough): the chain of ifs it abbreviates
+			if x.Init != nil || x.Tag == nil {
+				t.bad(x, "switch form")
+			}
+			var chain, last *ast.IfStmt
+			var deflt []ast.Stmt
+			for _, cl := range x.Body.List {
+				cc := cl.(*ast.CaseClause)
+				for _, st := range cc.Body {
+					if br, ok := st.(*ast.BranchStmt); ok && br.Tok == token.FALLTHROUGH {
+						t.bad(x, "fallthrough")
+					}
+				}
+				if cc.List == nil {
+					deflt = cc.Body
+					continue
+				}
+				var cond ast.Expr
+				for _, v := range cc.List {
+					eq := &ast.BinaryExpr{X: x.Tag, Op: token.EQL, Y: v}
+					if cond == nil {
+						cond = eq
+					} else {
+						cond = &ast.BinaryExpr{X: cond, Op: token.LOR, Y: eq}
+					}
+				}
+				is := &ast.IfStmt{Cond: cond, Body: &ast.BlockStmt{List: cc.Body}}
+				if chain == nil {
+					chain = is
+				} else {
+					last.Else = is
+				}
+				last = is
+			}
+			if chain == nil {
+				t.bad(x, "switch without cases")
+			}
+			if deflt != nil {
+				last.Else = &ast.BlockStmt{List: deflt}
+			}
+			rest := append([]ast.Stmt{chain}, list[i+1:]...)
+			b.lines = append(b.lines, t.stmts(rest, tail)...)
+			return b.lines
 		case *ast.ExprStmt:
 			// a call made for its effect on something the model does not carry (a log line, a statistics record): skipped, and listed
 			c, ok := x.X.(*ast.CallExpr)
@@ -1185,7 +1233,7 @@ func (t *tr) function() string {
 				}()
 				f.free, f.freeT, f.freeK, f.freeN = nil, map[string]string{}, map[string]kind{}, map[string]string{}
 				f.alias, f.skipped, f.tmp = map[string]ast.Expr{}, nil, 0
-				lines := t.stmts(f.decl.Body.List[:n], []string{"pure ()"})
+				lines := t.stmts(f.decl.Body.List[:n], []string{"pure true"})
 				body = append(pre, lines...)
 				f.prefixLen = n
 				done = true
@@ -1221,7 +1269,7 @@ func (t *tr) function() string {
 		rts = append(rts, "List (String × String × Int)")
 	}
 	if f.spec.Prefix {
-		rts = nil
+		rts = []string{"Bool"}
 	}
 	rt := strings.Join(rts, " × ")
 	if len(rts) == 0 {
